@@ -87,3 +87,34 @@ func VerifC12Race() {
 	verifAssert(!(u1 && u2), "of two racing copies at most one passes the final window update")
 	verifAssert(u1 == c1, "the first update agrees with the pre-check")
 }
+
+// VerifC12Interleaved: while one goroutine is between its pre-check and its final window update (decrypting, no lock
+// held), another goroutine completes the delivery of an arbitrary counter - the same one or a different one. The
+// scripted AEAD's hook plays the second goroutine at exactly that point.
+func VerifC12Interleaved() {
+	const n = 64
+	cs, vc := c12State(n)
+	ctr, other := verifU64("counter"), verifU64("other_counter")
+	verifAssume(ctr < 1<<63 && other < 1<<63)
+	relayed := verifBool("relayed")
+	pkt := verifBytes("packet", 40)
+	otherDelivered := false
+	vc.hook = func() {
+		cs.decryptLock.Lock()
+		otherDelivered = cs.window.Update(c12Log, other)
+		cs.decryptLock.Unlock()
+		vc.hook = nil
+	}
+	var err error
+	if relayed {
+		err = cs.VerifyRelay(c12Log, ctr, pkt, make([]byte, 12))
+	} else {
+		_, err = cs.Decrypt(c12Log, ctr, pkt, make([]byte, 12))
+	}
+	if other == ctr {
+		verifAssert(!(otherDelivered && err == nil), "two goroutines racing on the same counter: at most one acts on it")
+	}
+	if err == nil {
+		verifAssert(!cs.window.Check(c12Log, ctr), "an acted-upon counter is marked as seen")
+	}
+}
